@@ -13,10 +13,11 @@ EXPLANATION = (
 )
 RULE = "one case = one (typestate, client call, resolution of all oracles) transition; distinct = reachable typestates"
 EXHAUSTIVE = True
-OWNED = {"C01.M1", "C01.M2", "C01.M3", "C01.O1", "CRASH"}
+OWNED = {"C01.M1", "C01.M2", "C01.M3", "C01.O1", "CRASH", "ISO"}
 
 
 def check(ctx):
+    ctx.rule("ISO", "calls on one instance never change the heap reachable from another instance of the same class")
     ctx.assume("python", "clock", "client")
     ctx.rule("C01.M1", "a state that is neither default nor must_finish is called only if engage() was called since the previous outermost execute()")
     ctx.rule("C01.M2", "an outermost execute() with engage() called and no client done() calls exactly 1 + (number of next_state_now actions) state functions")
